@@ -91,6 +91,9 @@ func splitGoal(cond string) []string {
 			return []string{cond}
 		}
 		binders, body := x.list[1], x.list[2]
+		if body.head() == "!" && len(body.list) >= 2 {
+			body = body.list[1] // pattern annotations are irrelevant in a goal
+		}
 		if body.head() == "=>" && len(body.list) == 3 {
 			cs := conjuncts(body.list[2])
 			if len(cs) == 1 {
